@@ -122,6 +122,9 @@ class C20(PropCheck):
         for v0 in (False, True, None):
             for v1 in (False, True, None):
                 out.append({"k": "fastpath", "v0": v0, "v1": v1})
+        for exc in ("RuntimeError", "OSError", "ZeroDivisionError", "KeyError", "AssertionError", "NotImplementedError", "SystemError", "OverflowError"):
+            for helper in ("analyze_with_blocks", "inspect_frame"):
+                out.append({"k": "selftest_fault", "exc": exc, "helper": helper})
         for v in (False, True, None):
             out.append({"k": "race", "value": v})
             out.append({"k": "race", "value": v, "shape": "set_before_lock"})
@@ -163,7 +166,67 @@ class C20(PropCheck):
             return self.run_race(case)
         if case["k"] == "fastpath":
             return self.run_fastpath(case)
+        if case["k"] == "selftest_fault":
+            return self.run_selftest_fault(case)
         return self.run_modes(case)
+
+    def run_selftest_fault(self, case):
+        """Auto-detection is pending (mode None) and the self-test that the first inspection triggers fails with an exception of the
+        given type: a warning and the referents analysis, never an exception out of contexts_active_in_frame."""
+        from stackscope import _lowlevel as L
+
+        excs = {"RuntimeError": RuntimeError("injected"), "OSError": OSError("injected"), "ZeroDivisionError": ZeroDivisionError(),
+                "KeyError": KeyError(3), "AssertionError": AssertionError(), "NotImplementedError": NotImplementedError(),
+                "SystemError": SystemError("injected"), "OverflowError": OverflowError()}
+        ex = excs[case["exc"]]
+
+        class M:
+            def __enter__(s):
+                return s
+
+            def __exit__(s, *a):
+                return False
+
+        m = M()
+
+        def gen():
+            with m:
+                yield
+
+        g = gen()
+        next(g)
+        L.set_trickery_enabled(None)
+        orig = getattr(L, case["helper"])
+        calls = [0]
+
+        def wrapper(*a, **kw):
+            calls[0] += 1
+            if calls[0] == 1:
+                raise ex
+            return orig(*a, **kw)
+
+        setattr(L, case["helper"], wrapper)
+        out = "?"
+        try:
+            with warnings.catch_warnings(record=True) as caught, contextlib.redirect_stderr(io.StringIO()):
+                warnings.simplefilter("always")
+                try:
+                    res = L.contexts_active_in_frame(g.gi_frame, g)
+                    nwarn = sum(issubclass(x.category, L.InspectionWarning) for x in caught)
+                    objs = [c.obj for c in res]
+                    out = f"contexts={len(res)} warnings={min(nwarn, 1)}"
+                    if objs != [m]:
+                        self._probs.append(f"self-test failing with {case['exc']} in {case['helper']}: contexts {objs}, the active manager is {m}")
+                    if calls[0] and nwarn == 0:
+                        self._probs.append(f"self-test failing with {case['exc']} in {case['helper']}: no InspectionWarning")
+                except Exception as e:  # noqa: BLE001
+                    out = f"raised {type(e).__name__}"
+                    self._probs.append(f"auto-detection pending and the self-test fails with {case['exc']} (in {case['helper']}): "
+                                       f"contexts_active_in_frame raised {type(e).__name__} instead of warning and falling back")
+        finally:
+            setattr(L, case["helper"], orig)
+            L.set_trickery_enabled(None)
+        return out
 
     def run_fastpath(self, case):
         """One call of _check_trickery_available() while another thread's set_trickery_enabled(v1) completes between two steps of
@@ -495,7 +558,7 @@ class C20(PropCheck):
             return json.dumps({k: v for k, v in case.items() if not k.startswith("_")}, sort_keys=True)
         if case["k"] == "modes" and any(op != "query" for op in case["ops"]):
             return json.dumps(case, sort_keys=True)
-        if case["k"] == "fastpath":
+        if case["k"] in ("fastpath", "selftest_fault"):
             return json.dumps(case, sort_keys=True)
         return None
 
